@@ -479,12 +479,21 @@ func (t *timeTicker) Start() <-chan time.Time {
 			t.ticker = time.NewTicker(t.every)
 			// Send first event since we waited for it explicitly
 			t.alignChan <- next
+			last := next
 			for {
 				select {
 				case <-t.stopping:
 					return
 				case now := <-t.ticker.C:
-					now = now.Round(t.every)
+					// The ticks come shortly after a multiple of every, or later when the system is busy.
+					// Truncate so that a late tick is never taken for the next one,
+					// and skip a tick that would repeat the previous one or go back in time
+					// (a late tick followed by a punctual one, or the clock was set back).
+					now = now.Truncate(t.every)
+					if !now.After(last) {
+						continue
+					}
+					last = now
 					t.alignChan <- now
 				}
 			}
